@@ -21,8 +21,18 @@ for dp, dn, fns in os.walk(os.path.join(repo, "nemoguardrails")):
                 ch._parent = node
         tree._parent = None
         t = localnames.table_for_tree(tree)
-        t = {k: v for k, v in t.items() if v["locals"] or v["params"]}
-        if t:
-            out[rel] = t
+        t = {k: v for k, v in t.items() if v["locals"] or v["params"] or v.get("body")}
+        # every name the module defines at top level (an imported name that is not among them is new: possibly a renamed function)
+        top = set()
+        for st in tree.body:
+            for n in ast.walk(st) if not isinstance(st, (ast.FunctionDef, ast.AsyncFunctionDef, ast.ClassDef)) else [st]:
+                if isinstance(n, (ast.FunctionDef, ast.AsyncFunctionDef, ast.ClassDef)):
+                    top.add(n.name)
+                elif isinstance(n, ast.Name) and isinstance(n.ctx, ast.Store):
+                    top.add(n.id)
+                elif isinstance(n, ast.alias):
+                    top.add((n.asname or n.name).split(".")[0])
+        t["__toplevel__"] = sorted(top)
+        out[rel] = t
 json.dump(out, open(localnames.TABLE, "w"), indent=0, sort_keys=True)
 print("functions:", sum(len(v) for v in out.values()), "files:", len(out), "bytes:", os.path.getsize(localnames.TABLE))
